@@ -211,20 +211,22 @@ def closedRoot (root : Nat) (raw : Str) : Bool :=
 def rootDotDot (root : Nat) (raw : Str) : Bool :=
   root > 0 && (restComps root raw).head? == some dotdot
 
-/-- running depth never negative: no `..` climbs above the start of the string -/
-def noEscapeAux : Nat → List Str → Bool
-  | _, [] => true
-  | d, c :: r =>
-    if c == [] || c == dot then noEscapeAux d r
-    else if c == dotdot then (if d == 0 then false else noEscapeAux (d - 1) r)
-    else noEscapeAux (d + 1) r
+/-- `[]` and `.` leave the position unchanged -/
+def ignorable (c : Str) : Bool := c == [] || c == dot
 
-def noEscape (root : Nat) (raw : Str) : Bool := noEscapeAux 0 (restComps root raw)
+/-- components read from the END of the path: the number of `..` that are still waiting for an earlier
+    component to cancel when the start of the string is reached, beginning with `n` waiting ones -/
+def esc : Nat → List Str → Nat
+  | n, [] => n
+  | n, c :: cs => if ignorable c then esc n cs else if c == dotdot then esc (n + 1) cs else esc (n - 1) cs
+
+/-- no `..` climbs above the start of the string: every `..` is cancelled by an earlier component -/
+def noEscape (root : Nat) (raw : Str) : Bool := esc 0 (splitSlash (raw.drop root)).reverse == 0
 
 /-- the documented domain: a root that ends with a separator (or none) and, without a root, no `..` that climbs
-    above the start of the string -/
+    above the start of the string (and no separator at the start: that would be a root) -/
 def CanonDomain (root : Nat) (raw : Str) : Bool :=
-  root ≤ raw.length && closedRoot root raw && (root > 0 || noEscape root raw)
+  root ≤ raw.length && closedRoot root raw && (root > 0 || (noEscape root raw && raw.head? != some '/'))
 
 /-- the hypothesis of `pathiter_eq_canon`: the documented domain, and for the code before the repair none of the two
     input classes it gets wrong -/
